@@ -189,20 +189,20 @@ Proof.
 Qed.
 
 Lemma construct_one_cong c v v' sz u ad :
-  fv_rel v v' -> is_tuple_cls c = false -> construct c (IOne v) sz u ad = construct c (IOne v') sz u ad.
+  fv_rel v v' -> construct c (IOne v) sz u ad = construct c (IOne v') sz u ad.
 Proof.
-  unfold fv_rel, is_tuple_cls, construct. intros H Ht.
-  destruct (classify c); try reflexivity; try discriminate; rewrite H; reflexivity.
+  unfold fv_rel, construct. intros H.
+  destruct (classify c); try reflexivity; rewrite H; reflexivity.
 Qed.
 
 Lemma construct_args_cong c vs vs' :
-  Forall2 fv_rel vs vs' -> (is_tuple_cls c && Nat.eqb (length vs) 1 = false) ->
+  Forall2 fv_rel vs vs' ->
   construct c (match vs with [v] => IOne v | _ => IMany vs end) no_sizec false None =
   construct c (match vs' with [v] => IOne v | _ => IMany vs' end) no_sizec false None.
 Proof.
-  intros H Hs. inversion H as [|v v' l l' Hv Hl]; subst; [reflexivity|].
+  intros H. inversion H as [|v v' l l' Hv Hl]; subst; [reflexivity|].
   inversion Hl as [|w w' m m' Hw Hm]; subst.
-  - apply construct_one_cong; [exact Hv|]. cbn in Hs. rewrite andb_true_r in Hs. exact Hs.
+  - apply construct_one_cong. exact Hv.
   - apply construct_many_cong. exact H.
 Qed.
 
@@ -237,10 +237,9 @@ Qed.
 (* a generic alias (not a Union) whose arguments are pairwise related *)
 Lemma finish_cong c args args' rs rs' :
   is_anyof_cls c = false -> Forall2 ofv_rel rs rs' -> length args = length rs -> length args' = length rs' ->
-  (is_tuple_cls c && Nat.eqb (length args) 1 = false) ->
   tli_rel (finish c args rs) (finish c args' rs').
 Proof.
-  intros Hc HF La La' Hs. unfold finish, fill. rewrite Hc.
+  intros Hc HF La La'. unfold finish, fill. rewrite Hc.
   rewrite <- (forallb_is_some_rel _ _ HF). destruct (forallb is_some rs) eqn:Hall; [|cbn; reflexivity].
   destruct (fill_union_all_some args args' rs rs' HF Hall La La') as [vs [vs' [E1 [E2 HV]]]].
   rewrite E1, E2. cbn [bind].
@@ -251,7 +250,7 @@ Proof.
       destruct Hall as [H1 H2]. destruct r; [|discriminate]. cbn [fill_union] in E1.
       destruct (fill_union args rs) eqn:E; [|discriminate]. cbn in E1. inversion E1; subst. cbn. f_equal.
       apply (IH H2 args); [exact E|]. cbn in La. lia. }
-  pose proof (construct_args_cong c vs vs' HV) as HC. rewrite Hlen in HC. specialize (HC Hs).
+  pose proof (construct_args_cong c vs vs' HV) as HC.
   inversion HV as [|v v' l l' Hv Hl]; subst.
   - apply tli_rel_refl.
   - rewrite HC.
@@ -271,11 +270,10 @@ Qed.
 
 Lemma generic_cong og args args' :
   Forall2 oeq args args' ->
-  (match convert_basic og with Some c => is_tuple_cls c && Nat.eqb (length args) 1 | None => false end = false) ->
   anyof_origin og = false ->
   oeq (OGeneric og args) (OGeneric og args').
 Proof.
-  intros HF Hs Ha.
+  intros HF Ha.
   assert (HT : tli_rel (tli (OGeneric og args)) (tli (OGeneric og args'))).
   { rewrite !tli_generic. unfold anyof_origin in Ha. destruct (convert_basic og) as [c|]; [|cbn; reflexivity].
     pose proof (mapM_tli_cong _ _ HF) as HM.
@@ -410,10 +408,10 @@ Lemma coll_not_tuple c : is_coll_cls c = true -> is_tuple_cls c = false.
 Proof. unfold is_coll_cls, is_tuple_cls. destruct (classify c); congruence. Qed.
 
 Lemma construct_one_coll c v sz u ad :
-  is_coll_cls c = true ->
+  is_one_item_cls c = true ->
   construct c (IOne v) sz u ad = (f <- inst v ;; construct c (IOne (FVInst f)) sz u ad).
 Proof.
-  unfold is_coll_cls, construct. destruct (classify c); try discriminate; intros _;
+  unfold is_one_item_cls, is_coll_cls, is_tuple_cls, construct. destruct (classify c); try discriminate; intros _;
     destruct (inst v); reflexivity.
 Qed.
 
@@ -544,28 +542,23 @@ Proof.
     cbn [option_map bind inst]. rewrite Hi. reflexivity.
 Qed.
 
-Lemma single_tuple_unfold o n :
-  single_tuple o n = match convert_basic o with Some c => is_tuple_cls c && Nat.eqb n 1 | None => false end.
-Proof. reflexivity. Qed.
-
 Lemma case_typing_pep585 tn o args args' :
   typing_origin tn = Some o -> lreq (mapM pyeval args) (mapM pyeval args') -> no_none args = true ->
-  single_tuple o (length args) = false -> req (pyeval (TTyping tn args)) (pyeval (TPep585 o args')).
+  req (pyeval (TTyping tn args)) (pyeval (TPep585 o args')).
 Proof.
-  intros Ho HL Hn Hs. rewrite pyeval_typing, pyeval_pep585, Ho.
+  intros Ho HL Hn. rewrite pyeval_typing, pyeval_pep585, Ho.
   destruct (anyof_origin o) eqn:Ha; [reflexivity|].
   destruct (mapM pyeval args) as [objs|x] eqn:E, (mapM pyeval args') as [objs'|y]; cbn in HL |- *; try tauto.
   rewrite (no_none_map _ _ Hn E). apply generic_cong; auto.
-  rewrite (mapM_length _ _ _ E). exact Hs.
 Qed.
 
 Lemma case_pep585_cong o args args' :
-  lreq (mapM pyeval args) (mapM pyeval args') -> single_tuple o (length args) = false ->
+  lreq (mapM pyeval args) (mapM pyeval args') ->
   req (pyeval (TPep585 o args)) (pyeval (TPep585 o args')).
 Proof.
-  intros HL Hs. rewrite !pyeval_pep585. destruct (anyof_origin o) eqn:Ha; [reflexivity|].
+  intros HL. rewrite !pyeval_pep585. destruct (anyof_origin o) eqn:Ha; [reflexivity|].
   destruct (mapM pyeval args) as [objs|x] eqn:E, (mapM pyeval args') as [objs'|y]; cbn in HL |- *; try tauto.
-  apply generic_cong; auto. rewrite (mapM_length _ _ _ E). exact Hs.
+  apply generic_cong; auto.
 Qed.
 
 Lemma case_sub_cong c args args' :
@@ -576,16 +569,27 @@ Proof.
   rewrite (subscript_cong c _ _ HL). apply req_refl.
 Qed.
 
+Lemma items_ok_single c a :
+  ctor_items_ok c [a] = true ->
+  exists o, pyeval a = Ok o /\ fieldy_obj o = true /\ (is_tuple_cls c = false \/ is_struct_obj o = false).
+Proof.
+  intros H. destruct (items_ok_objs c [a] H) as [objs [E HF]]. cbn [mapM] in E.
+  destruct (pyeval a) as [o|x]; [|discriminate E]. cbn in E. inversion E; subst objs.
+  inversion HF as [|? ? [Hf Ht] _]; subst. exists o. auto.
+Qed.
+
+(* Cls(items=T) under a related item, for EVERY class taking items - Tuple included (a Structure class is not an
+   item Tuple's constructor accepts: ctor_items_ok) *)
 Lemma case_ctor1_cong c a a' sz u :
-  req (pyeval a) (pyeval a') -> fieldy a = true -> fieldy a' = true -> is_tuple_cls c = false ->
+  req (pyeval a) (pyeval a') -> ctor_items_ok c [a] = true -> ctor_items_ok c [a'] = true ->
   req (pyeval (TCtor1 c a sz u)) (pyeval (TCtor1 c a' sz u)).
 Proof.
-  unfold fieldy. intros HR Hf Hf' Ht. cbn [pyeval].
-  destruct (pyeval a) as [o|x]; [|discriminate]. destruct (pyeval a') as [o'|y]; [|discriminate].
+  intros HR H1 H2. destruct (items_ok_single c a H1) as [o [E [Hf Ht]]].
+  destruct (items_ok_single c a' H2) as [o' [E' [Hf' Ht']]]. cbn [pyeval]. rewrite E, E' in *.
   cbn in HR. destruct HR as [_ Hg]. cbn [bind].
-  destruct (ctor_item_fieldy c o Hf (or_introl Ht)) as [v [Ev Hv]].
-  destruct (ctor_item_fieldy c o' Hf' (or_introl Ht)) as [v' [Ev' Hv']]. rewrite Ev, Ev'. cbn [bind].
-  rewrite (construct_one_cong c v v' sz u None); [apply req_refl| |exact Ht]. unfold fv_rel. congruence.
+  destruct (ctor_item_fieldy c o Hf Ht) as [v [Ev Hv]].
+  destruct (ctor_item_fieldy c o' Hf' Ht') as [v' [Ev' Hv']]. rewrite Ev, Ev'. cbn [bind].
+  rewrite (construct_one_cong c v v' sz u None); [apply req_refl|]. unfold fv_rel. congruence.
 Qed.
 
 Lemma case_ctorN_cong c l l' sz u ad :
@@ -600,15 +604,16 @@ Proof.
 Qed.
 
 Lemma case_sub_ctor1 c a a' :
-  req (pyeval a) (pyeval a') -> fieldy a' = true -> is_coll_cls c = true ->
+  req (pyeval a) (pyeval a') -> ctor_items_ok c [a'] = true -> is_one_item_cls c = true ->
   req (pyeval (TSub c [a])) (pyeval (TCtor1 c a' no_sizec false)).
 Proof.
-  unfold fieldy. intros HR Hf' Hc. rewrite pyeval_sub. cbn [pyeval mapM].
-  destruct (pyeval a') as [o'|y]; [|discriminate]. destruct (pyeval a) as [o|x]; [|cbn in HR; tauto].
+  intros HR H2 Hc. destruct (items_ok_single c a' H2) as [o' [E' [Hf' Ht']]].
+  rewrite pyeval_sub. cbn [pyeval mapM]. rewrite E' in *.
+  destruct (pyeval a) as [o|x]; [|cbn in HR; tauto].
   cbn in HR. destruct HR as [_ Hg]. cbn [bind].
-  destruct (ctor_item_fieldy c o' Hf' (or_introl (coll_not_tuple c Hc))) as [v' [Ev' Hv']]. rewrite Ev'. cbn [bind].
+  destruct (ctor_item_fieldy c o' Hf' Ht') as [v' [Ev' Hv']]. rewrite Ev'. cbn [bind].
   rewrite (construct_one_coll c v' no_sizec false None Hc), Hv', <- Hg.
-  unfold subscript. unfold is_coll_cls in Hc.
+  unfold subscript. unfold is_one_item_cls, is_coll_cls, is_tuple_cls in Hc.
   destruct (classify c) eqn:EC; try discriminate; cbn [mapM];
     destruct (getitem_conv o) as [f|x]; cbn [bind]; try reflexivity; apply req_refl.
 Qed.
@@ -638,11 +643,11 @@ Proof. destruct fs as [|f [|g t]]; reflexivity. Qed.
 
 Lemma case_pep585_sub o c args args' :
   convert_basic o = Some c -> lreq (mapM pyeval args) (mapM pyeval args') -> forallb good args = true ->
-  args <> [] -> single_tuple o (length args) = false -> is_anyof_cls c = false -> sub_like c = true ->
+  args <> [] -> is_anyof_cls c = false -> sub_like c = true ->
   is_ok (pyeval (TSub c args')) = true ->
   req (pyeval (TPep585 o args)) (pyeval (TSub c args')).
 Proof.
-  intros Hc HL Hg Hne Hs Ha Hsl Hok. rewrite pyeval_pep585. unfold anyof_origin. rewrite Hc, Ha.
+  intros Hc HL Hg Hne Ha Hsl Hok. rewrite pyeval_pep585. unfold anyof_origin. rewrite Hc, Ha.
   unfold good in Hg. destruct (forallb_objs good_obj args Hg) as [objs [E HG]]. rewrite E in *. cbn [bind].
   rewrite pyeval_sub in *. destruct (mapM pyeval args') as [objs'|y]; cbn in HL; [|tauto]. cbn [bind] in *.
   destruct (subscript c objs') as [f'|y] eqn:ES; [|discriminate]. cbn [bind].
@@ -657,10 +662,9 @@ Proof.
     rewrite Ha.
     assert (HC : construct c (match vs with [v] => IOne v | _ => IMany vs end) no_sizec false None = Ok f').
     { rewrite (construct_args_cong c vs (map FVInst fs) (inst_rel_FVInst _ _ E2)).
-      - rewrite <- sel_map_FVInst. unfold subscript, sub_like in *.
-        rewrite <- (mapM_getitem_cong _ _ HL), E3 in ES.
-        destruct (classify c); try discriminate; exact ES.
-      - rewrite <- Hlv, Hlen. rewrite single_tuple_unfold, Hc in Hs. exact Hs. }
+      rewrite <- sel_map_FVInst. unfold subscript, sub_like in *.
+      rewrite <- (mapM_getitem_cong _ _ HL), E3 in ES.
+      destruct (classify c); try discriminate; exact ES. }
     destruct vs as [|v t]; [congruence|]. rewrite HC. reflexivity. }
   split.
   - rewrite HT. cbn. unfold fv_rel. reflexivity.
@@ -867,24 +871,25 @@ Inductive sp_eq : tyexpr -> tyexpr -> Prop :=
 (* typing.List[T] ~ list[T'] *)
 | sp_typing_pep585 tn o args args' :
     typing_origin tn = Some o -> sp_eqs args args' -> no_none args = true ->
-    single_tuple o (length args) = false -> sp_eq (TTyping tn args) (TPep585 o args')
+    sp_eq (TTyping tn args) (TPep585 o args')
 | sp_pep585_cong o args args' :
-    sp_eqs args args' -> single_tuple o (length args) = false -> sp_eq (TPep585 o args) (TPep585 o args')
+    sp_eqs args args' -> sp_eq (TPep585 o args) (TPep585 o args')
 (* list[T] ~ Array[T'], dict[K, V] ~ Map[K', V'], tuple[A, B] ~ Tuple[A', B'] *)
 | sp_pep585_sub o c args args' :
     convert_basic o = Some c -> sp_eqs args args' -> forallb good args = true -> args <> [] ->
-    single_tuple o (length args) = false -> is_anyof_cls c = false -> sub_like c = true ->
+    is_anyof_cls c = false -> sub_like c = true ->
     is_ok (pyeval (TSub c args')) = true -> sp_eq (TPep585 o args) (TSub c args')
 | sp_sub_cong c args args' : sp_eqs args args' -> sp_eq (TSub c args) (TSub c args')
-(* Array[T] ~ Array(items=T') *)
+(* Array[T] ~ Array(items=T'), Tuple[T] ~ Tuple(items=T') *)
 | sp_sub_ctor1 c a a' :
-    sp_eq a a' -> fieldy a' = true -> is_coll_cls c = true -> sp_eq (TSub c [a]) (TCtor1 c a' no_sizec false)
+    sp_eq a a' -> ctor_items_ok c [a'] = true -> is_one_item_cls c = true ->
+    sp_eq (TSub c [a]) (TCtor1 c a' no_sizec false)
 (* Array[A, B] ~ Array(items=[A', B']), Map[K, V] ~ Map(items=[K', V']), AnyOf[A, B] ~ AnyOf(fields=[A', B']) *)
 | sp_sub_ctorN c l l' :
     sp_eqs l l' -> ctor_items_ok c l' = true -> many_ok c (length l) = true ->
     sp_eq (TSub c l) (TCtorN c l' no_sizec false None)
 | sp_ctor1_cong c a a' sz u :
-    sp_eq a a' -> fieldy a = true -> fieldy a' = true -> is_tuple_cls c = false ->
+    sp_eq a a' -> ctor_items_ok c [a] = true -> ctor_items_ok c [a'] = true ->
     sp_eq (TCtor1 c a sz u) (TCtor1 c a' sz u)
 | sp_ctorN_cong c l l' sz u ad :
     sp_eqs l l' -> ctor_items_ok c l = true -> ctor_items_ok c l' = true ->
